@@ -459,3 +459,46 @@ def build(cls, scheme, authority, user, password, host, port, path, query, query
     if fragment:
         fragment = spec_parse.FRAGMENT_QUOTER(fragment)
     return U(scheme, netloc, path, query_string, fragment)
+
+
+def with_host(u, host):
+    """C11/C16: the host is validated and canonicalised; user, password and port are kept"""
+    if not isinstance(host, str):
+        raise TypeError("Invalid host type")
+    if u.netloc == "":
+        raise ValueError("host replacement is not allowed for relative URLs")
+    if host == "":
+        raise ValueError("host removing is not allowed")
+    user, password, _, p = spec_parse.split_netloc(u.netloc)
+    return U(u.scheme, spec_parse.make_netloc(user, password, encode_host(host, True), p), u.path, u.query, u.fragment)
+
+
+def with_path(u, path, encoded, keep_query, keep_fragment):
+    """C11: scheme and authority kept, query and fragment cleared unless asked to keep them;
+    C15: dot segments removed under an authority; the path is rooted"""
+    if not encoded:
+        path = spec_parse.PATH_QUOTER(path)
+        if u.netloc and "." in path:
+            path = normalize_path(path)
+    if path and path[0] != "/":
+        path = "/" + path
+    return U(u.scheme, u.netloc, path, u.query if keep_query else "", u.fragment if keep_fragment else "")
+
+
+def origin_(u):
+    return origin(u)
+
+
+def is_absolute(u):
+    return u.netloc != ""
+
+
+def bool_(u):
+    return u.netloc != "" or u.path != "" or u.query != "" or u.fragment != ""
+
+
+# ---------------------------------------------------------------- pickling (C09)
+
+def getstate(u):
+    """the pickled state is exactly the five stored parts (nothing derived, nothing normalised)"""
+    return ((u.scheme, u.netloc, u.path, u.query, u.fragment),)
